@@ -98,9 +98,12 @@ def run_scenario(sc, strategy=None, race=False):
                     setattr(self, k, v)
             crhfunc.__qualname__ = f'PM{mi}.crhfunc'
             body['crhfunc'] = CommonReadHandler(crh['keys'])(crhfunc)
-        for pname in spec.get('writes', {}):
+        for pname, wv in spec.get('writes', {}).items():
+            # a configured value, or (value, outcome): the write of the configured value fails in that way
+            wout = wv[1] if isinstance(wv, (tuple, list)) else 'ok'
             body[pname] = Parameter(pname, FloatRange(), default=0, readonly=False)
-            body['write_' + pname] = (lambda self, value, mi=mi, pname=pname: (act(mi, 'write_' + pname, [(0, 'ok')]), value)[1])
+            body['write_' + pname] = (lambda self, value, mi=mi, pname=pname, wout=wout:
+                                      (act(mi, 'write_' + pname, [(0, wout)]), value)[1])
         if base is Readable:
             body['read_value'] = nopoll(lambda self: 0.0)
             body['read_status'] = nopoll(lambda self: (100, ''))
@@ -112,7 +115,7 @@ def run_scenario(sc, strategy=None, race=False):
             cfg['pollinterval'] = max(0.1, spec['interval'] * TICK)
         cfg['slowinterval'] = max(0.1, spec['slow'] * TICK)
         for pname, v in spec.get('writes', {}).items():
-            cfg[pname] = {'value': v}
+            cfg[pname] = {'value': v[0] if isinstance(v, (tuple, list)) else v}
         return cls(f'm{mi}', LoggerStub(f'm{mi}'), cfg, Srv())
 
     class Starter:
